@@ -39,6 +39,10 @@ def run(ctx):
     rc, rows, err = ctx.jsonl([binp, "gen", "-seed", str(ctx.seed), "-n", str(ngen)], timeout=3000)
     rc2, wrows, err2 = ctx.jsonl([binp, "wait", "-seed", str(ctx.seed), "-n", str(nwait)], timeout=3000)
     rc3, crows, err3 = ctx.jsonl([bin27, "gen", "-seed", str(ctx.seed + 1000), "-n", str(105 if quick else 1400)], timeout=1500)
+    rc4, vrows, err4 = ctx.jsonl([binp, "vis"], timeout=1500)
+    if rc4 or len(vrows) < 30:
+        ctx.broken.append(("harness-run", "c32 vis mode failed rc=%d rows=%d %s" % (rc4, len(vrows), err4[-500:])))
+    rows = rows + vrows
     tm["harness"] = round(time.time() - t0, 1)
     if rc or rc2 or rc3 or not rows or not wrows or not crows:
         ctx.broken.append(("harness-run", "c32 harness failed rc=%d/%d/%d %s" % (rc, rc2, rc3, (err + err2 + err3)[-800:])))
@@ -52,11 +56,16 @@ def run(ctx):
                 "shift, set --, cd/pushd/popd, alias, functions, options) while the parent runs 1..3 operations on the same "
                 "names, then wait; every 5th case runs 1..3 Runner.Subshell copies in goroutines concurrently with the parent; "
                 "a `:` between operations gives the harness a yield point (random sleep/Gosched). wait: 2..5 jobs with random "
-                "statuses and completion delays, waited for in random order. non-trivial = distinct program text")
+                "statuses and completion delays, waited for in random order. gen placements: top level, whole program inside a "
+                "function body (with locals), jobs started by a function that returns while they run, jobs started inside a "
+                "foreground ( ) that they outlive; jobs also read the whole environment (`__snap`). vis: deterministic matrix, "
+                "4 non-blocking constructs x 7 placements + pipe/<( ) x 2 + Runner.Subshell: the copy waits at a gate (harness "
+                "ExecHandler) until the running shell has changed every kind of state and must still see the state it was "
+                "started with. non-trivial = distinct program text")
     skipped = 0
     for r in rows + wrows:
         ctx.count(1, [r["prog"]])
-        if r.get("panic") or (r.get("hang") and r["mode"] == "gen"):
+        if r.get("panic") or (r.get("hang") and r["mode"] == "gen" and not r.get("fails")):
             skipped += 1      # interpreter crash / hang: C28 / C31 territory, not a race verdict
         for cl in r.get("fails") or []:
             ctx.fail(cl, {"prog": r["prog"]}, r.get("class") or None,
